@@ -1,5 +1,6 @@
 import PlzVerif.Lemmas.Changes
 import PlzVerif.Model.QueryFacts
+import PlzVerif.Props.C23
 import PlzVerif.Generated.C24
 /-!
 C24  Change detection never misses an affected target.
@@ -58,7 +59,10 @@ def FactsOK : Bool :=
   PlzVerif.Generated.C24.sourceHash ==
     ["var F1 []byte",
      "for _, v01 := range T.AllTools() { if _, v02 := v01.Label(); v02 { continue } F1 = append(F1, toolPathHash(STATE, v01)...) }",
-     "return F1, nil"]
+     "return F1, nil"] &&
+  -- `C24_superset` rests on the whole `findRevdeps` model (FIFO, report on depth > 0, the hidden branch, the parent
+  -- lookup, `isSameTarget`), not only on the level bookkeeping: everything C23 pins about it is required here too
+  PlzVerif.Props.C23.FactsOK
 
 set_option maxRecDepth 100000 in
 /-- Obligation a code change can break. -/
@@ -67,7 +71,7 @@ theorem C24_facts_ok : FactsOK = true := by decide
 theorem cfg_std : genCfg = Cfg.std := by
   have h := C24_facts_ok
   simp only [FactsOK, Bool.and_eq_true, beq_iff_eq] at h
-  exact h.1.1.1.1.1.1.1
+  exact h.1.1.1.1.1.1.1.1
 
 /-- what `plz query changes` reports (ids; the real output is this set in label order) -/
 def reported (C : CGraph) (files : List Path) (changed0 : List Nat) (level : Option Limit) : List Nat :=
@@ -85,12 +89,71 @@ theorem C24_ownership (C : CGraph) (files : List Path) (changed0 : List Nat) (le
   | some lim => exact List.mem_append_left _ (List.mem_append_right _ hm)
 
 /-- With an unlimited level every affected target is reported: a CI that tests the reported set tests everything
-affected. -/
+affected.  PARTIAL with respect to the property text: `changed0` (what `diffGraphs` found through the rule and source
+hashes) is an input here; that half rests on C08/C09 and is known to fail for unframed rule-hash collisions (header). -/
 theorem C24_superset (C : CGraph) (files : List Path) (changed0 : List Nat) (h0 : ∀ t ∈ changed0, t ∈ C.G.nodes)
     (t : Nat) (ha : Affected C files changed0 t) : t ∈ reported C files changed0 (some none) :=
   changedTargets_superset genCfg C files changed0 h0 t ha
 
-/-- Everything reported without reverse dependencies (level 0) is changed or consumes a changed file. -/
+theorem closestPkg_some (C : CGraph) : ∀ (fuel : Nat) (dir d : Path), closestPkg C fuel dir = some d →
+    d ∈ C.pkgs ∧ d <+: dir ∧ d ≠ dir := by
+  intro fuel
+  induction fuel with
+  | zero => intro dir d h; simp [closestPkg] at h
+  | succ n ih =>
+    intro dir d h
+    unfold closestPkg at h
+    split at h
+    · simp at h
+    · rename_i hne
+      have hne' : dir ≠ [] := by simpa using hne
+      have hlt : dir.dropLast.length < dir.length := by
+        rw [List.length_dropLast]; exact Nat.sub_lt (List.length_pos_iff.mpr hne') (by decide)
+      dsimp only at h
+      split at h
+      · rename_i hc
+        simp at h; subst h
+        refine ⟨by simpa using hc, List.dropLast_prefix dir, fun e => ?_⟩
+        rw [e] at hlt; exact Nat.lt_irrefl _ hlt
+      · obtain ⟨h1, h2, _⟩ := ih _ _ h
+        refine ⟨h1, h2.trans (List.dropLast_prefix dir), fun e => ?_⟩
+        have := h2.length_le; rw [e] at this; omega
+
+/-- What "marked because of the files" means, independently of the walk: a target reported at level 0 because of
+    `files` is a target of a package that lies strictly above one of the files, and one of its sources, data
+    entries or file tools names that file (or a directory containing it) relative to the package. -/
+theorem C24_level0_sound (C : CGraph) (files : List Path) (t : Nat) (h : t ∈ changedByFiles C files) :
+    ∃ f ∈ files, t ∈ C.G.nodes ∧ C.pkgOf t ∈ C.pkgs ∧ C.pkgOf t <+: f ∧ C.pkgOf t ≠ f ∧
+      ∃ s ∈ C.inputs t ++ C.tools t, ∃ rel, matchesInput s rel = true ∧ (rel = f ∨ f = C.pkgOf t ++ rel) := by
+  unfold changedByFiles at h
+  rw [List.mem_flatMap] at h
+  obtain ⟨f, hf, ht⟩ := h
+  refine ⟨f, hf, ?_⟩
+  cases hc : closestPkg C (f.length + 1) f with
+  | none => simp [hc] at ht
+  | some pkg =>
+    simp only [hc, List.mem_filter, Bool.and_eq_true, beq_iff_eq] at ht
+    obtain ⟨hn, hp, hs⟩ := ht
+    obtain ⟨h1, h2, h3⟩ := closestPkg_some C _ _ _ hc
+    rw [← hp] at h1 h2 h3
+    refine ⟨hn, h1, h2, h3, ?_⟩
+    unfold hasAbsoluteSource at hs
+    simp only [Bool.or_eq_true, List.any_eq_true] at hs
+    have key : ∃ rel, (rel = f ∨ f = C.pkgOf t ++ rel) ∧
+        rel = (if (C.pkgOf t != [] && (C.pkgOf t).isPrefixOf f) = true then f.drop (C.pkgOf t).length else f) := by
+      split
+      · rename_i hcond
+        simp only [Bool.and_eq_true, List.isPrefixOf_iff_prefix] at hcond
+        obtain ⟨r, hr⟩ := hcond.2
+        exact ⟨_, Or.inr (by rw [← hr]; simp), rfl⟩
+      · exact ⟨_, Or.inl rfl, rfl⟩
+    obtain ⟨rel, hrel, erel⟩ := key
+    rcases hs with ⟨s, hs1, hs2⟩ | ⟨s, hs1, hs2⟩
+    · exact ⟨s, List.mem_append_left _ hs1, rel, by rw [erel]; exact hs2, hrel⟩
+    · exact ⟨s, List.mem_append_right _ hs1, rel, by rw [erel]; exact hs2, hrel⟩
+
+/-- Everything reported without reverse dependencies (level 0) is changed or consumes a changed file
+    (`C24_level0_sound` says what the second case means). -/
 theorem C24_level0 (C : CGraph) (files : List Path) (changed0 : List Nat) (t : Nat)
     (h : t ∈ reported C files changed0 none) : t ∈ changed0 ∨ t ∈ changedByFiles C files := by
   unfold reported changedTargets at h
